@@ -42,7 +42,7 @@ def gen(r, tier):
     import props.c01 as c01
     ss = list(c01.shared_shuffles())
     ss = [c for c in ss if r.below(6 if tier == "quick" else 1) == 0]
-    for p in ss + list(c01.direct_and_shuffled()) + list(c01.two_repartitions()):
+    for p in ss + list(c01.direct_and_shuffled()) + list(c01.two_repartitions()) + list(c01.wide_keyed()):
         yield "%s ;; %s" % (config(r), p)
     # machine combiners shared by concurrent tasks of one machine: many rows, a handful of keys per partition
     for cfg in ("bm M2 P4 MC", "bm M4 P8 MC", "bm M8 P8 MC", "bm M4 P8", "local P4"):
